@@ -60,6 +60,10 @@ def worker(args):
     c2["opts"]["flavour"] = fl
     if fl == "c99":
         c2["opts"]["extra_options"] = ['extra-type="void *"']     # yylex_init_extra/yyget_extra exist
+    tables = (fl == "r" and (i // 3) % 2 == 1)
+    if tables:
+        # tables loaded from a file are one object for all instances of the scanner
+        c2["opts"]["tables_file"] = "s.tbl"
     b = runner.build_scanner(flex, c2, fl, wd, (), "tsan" if threads else "san",
                              util.Rng(case["seed"], "emit"))
     if not b.ok:
@@ -91,6 +95,9 @@ def worker(args):
             argv += [pk, lg]
         mode = "t" if threads else rng.choice(["i", "r"])
         env = util.clean_env(runner.SAN_ENV)
+        if tables:
+            env["VF_TABLES"] = os.path.join(wd, "s.tbl")
+            feat("shared_serialized_tables")
         res = util.run([b.exe, mode, str(rng.below(1 << 30)), str(k)] + argv, cwd=wd, env=env,
                        timeout=120, cpu_s=60)
         out["runs"] += 1
@@ -247,7 +254,7 @@ def run(pid, tier):
         for kind, what in probs:
             chk.violation("multi-prefix program %d: %s" % (i, what), {"kind": kind})
     for k in ("mode:t", "mode:i", "mode:r", "flavour:r", "flavour:c99", "flavour:cxx", "k:2", "k:16",
-              "overlap_observed", "prefix_link_ok"):
+              "overlap_observed", "prefix_link_ok", "shared_serialized_tables"):
         chk.require(k)
     chk.require("instances_checked", 50)
     return chk
